@@ -82,7 +82,9 @@ Contract(ST, 'ControlStream.read_reply', CS, ret=TObj('Reply'), prop='C17/C09',
          loops={0: {'invariant': [('whole-lines', 'self._data_event_dispatcher.notified_in[len(old(self._data_event_dispatcher.notified_in)):] == self._connection.wire_in[len(old(self._connection.wire_in)):]'),
                                   ('prefix-in', 'startswith(self._connection.wire_in, old(self._connection.wire_in))'),
                                   ('prefix-notified', 'startswith(self._data_event_dispatcher.notified_in, old(self._data_event_dispatcher.notified_in))'),
-                                  ('incomplete', 'reply.code is None'),
+                                  ('incomplete', 'implies(loop_guard_, reply.code is None)'),
+                                  ('text-with-code', 'implies(reply.code is not None, reply.text is not None)'),
+                                  ('some-line-when-complete', 'implies(reply.code is not None, endswith(self._connection.wire_in, "\\n"))'),
                                   ('only-lines', 'self._connection.wire_in == old(self._connection.wire_in) or endswith(self._connection.wire_in, "\\n")')]}},
          ensures=[('code-set', 'result.code is not None'), ('text-set', 'result.text is not None'),
                   ('consumed-whole-lines', 'endswith(self._connection.wire_in, "\\n") and startswith(self._connection.wire_in, old(self._connection.wire_in))'),
